@@ -13,6 +13,7 @@ import (
 )
 
 func rulesC18(c *Ctx) {
+	c18EntryPoints(c)
 	c18MergeContexts(c, map[string]bool{"derive": true, "either": true})
 	c18HTTPAttempt(c, map[string]bool{"attempt": true, "premature-cancel": true})
 	c18BodyReader(c)
@@ -1119,5 +1120,72 @@ func c19Responses(c *Ctx) {
 		c.Fail("failsafehttp#responses", "", "no code path of the HTTP adapter ever closes a response body: responses that are retried or lose a hedge are dropped unclosed and keep their connections", "")
 	} else {
 		c.Ok("failsafehttp#responses", "", fmt.Sprintf("%d Close calls on response bodies in the adapter", n))
+	}
+}
+
+// c18EntryPoints: RoundTrip and Request.Do hand the caller's request, the configured executor and the inner
+// transport / client to doRequest and return its values; a nil inner round tripper means http.DefaultTransport.
+func c18EntryPoints(c *Ctx) {
+	c.Rule("http-entry")
+	for _, sp := range []struct{ fn, reqField, via string }{{"failsafehttp.(*roundTripper).RoundTrip", "", "RoundTrip"}, {"failsafehttp.(*Request).Do", "request", "Do"}} {
+		fn := c.P.Func(sp.fn)
+		if fn == nil {
+			c.Unresolved(sp.fn, "not found")
+			continue
+		}
+		ev := NewEvaluator(c.P, EvalConfig{})
+		ok := true
+		ps := ev.Run(fn)
+		recv := ev.Param(fn, fn.Params[0].Name())
+		for _, p := range ps {
+			d := eventsWhere(p, func(e *Event) bool { return isCall(e, "doRequest") })
+			good := p.Exit == ExitReturn && len(d) == 1 && len(impure(p)) == 1 && p.Rets[0] == d[0].Res[0] && p.Rets[1] == d[0].Res[1] && d[0].Args[1] == ev.LoadField(ev.NewState(), recv, "executor")
+			if good {
+				if sp.reqField == "" {
+					good = d[0].Args[0] == ev.Param(fn, fn.Params[1].Name())
+				} else {
+					good = d[0].Args[0] == ev.LoadField(ev.NewState(), recv, sp.reqField)
+				}
+			}
+			if good {
+				// the request function is the inner transport's RoundTrip / the client's Do, bound to the configured object
+				f := d[0].Args[2]
+				good = f.Op == "closure" && f.Fn != nil && (f.Fn.Name() == sp.via+"$bound") && len(f.Args) == 1 && (loadedField(f.Args[0]) == "next" || loadedField(f.Args[0]) == "client")
+			}
+			if !good {
+				ok = false
+				c.Fail(sp.fn, c.P.FuncPos(fn), "the entry point must be exactly doRequest(the caller's request, the configured executor, the inner "+sp.via+") and return its values", pathTrace(ev, p))
+			}
+		}
+		if ok && len(ps) > 0 {
+			c.Ok(sp.fn, c.P.FuncPos(fn), "delegates to doRequest with the caller's request, the executor and the inner "+sp.via)
+		}
+	}
+	if fn := c.P.Func("failsafehttp.NewRoundTripperWithExecutor"); fn == nil {
+		c.Unresolved("failsafehttp.NewRoundTripperWithExecutor", "not found")
+	} else {
+		ev := NewEvaluator(c.P, EvalConfig{})
+		ts := ev.TS
+		ok := true
+		inner, ex := ev.Param(fn, fn.Params[0].Name()), ev.Param(fn, fn.Params[1].Name())
+		for _, p := range ev.Run(fn) {
+			r := p.Rets[0]
+			nx := ev.LoadField(p.State, r, "next")
+			isNil := p.State.Facts.Truth(ts, ts.Cmp("==", inner, ts.Nil(nil)))
+			good := r.Op == "alloc" && ev.LoadField(p.State, r, "executor") == ex
+			if good && isNil == triF {
+				good = nx == inner
+			}
+			if good && isNil == triT {
+				good = isGlobal(nx, "DefaultTransport")
+			}
+			if !good || isNil == triU {
+				ok = false
+				c.Fail(c.fn(fn), c.P.FuncPos(fn), "the round tripper must wrap the given inner round tripper (http.DefaultTransport when nil) and the given executor", pathTrace(ev, p))
+			}
+		}
+		if ok {
+			c.Ok(c.fn(fn), c.P.FuncPos(fn), "wraps the inner round tripper (DefaultTransport if nil) and the executor")
+		}
 	}
 }
